@@ -107,12 +107,20 @@ def sort_is_total(sortcall):
     return False
 
 
-def extremum_is_total(call):
-    """max_by/min_by whose comparator falls back (then/then_with) on comparing the unique map keys
+FN_INDEX = {}     # (krate, raw) -> fn, filled by the rule module: lets a comparator given as a function path be read
+
+
+def extremum_is_total(call, crate=None):
+    """max_by/min_by whose comparator falls back (then/then_with, or a match arm) on comparing the unique map keys
     (first tuple component) of the two elements: no ties remain, so iteration order is irrelevant."""
     if call["name"] not in ("max_by", "min_by") or not call["args"]:
         return False
     clo = strip(call["args"][0])
+    if clo.get("k") == "Path" and "def" in clo and crate is not None:
+        d = crate.dfn(clo["def"])
+        g = FN_INDEX.get((d.get("krate"), d.get("raw"))) if d else None
+        if g is not None:
+            clo = {"k": "Closure", "params": g["params"], "body": g["body"]}
     if clo.get("k") != "Closure" or len(clo["params"]) != 2:
         return False
     pids = []
@@ -138,7 +146,8 @@ def extremum_is_total(call):
             a, b = first_of(n["recv"]), first_of(n["args"][0])
             if a is not None and b is not None and a != b:
                 key_cmp = True
-    return has_then and key_cmp
+    # the keys are unique, so a comparator that consults them whenever the primary comparison ties is total
+    return key_cmp
 
 
 class Consumer:
@@ -172,7 +181,7 @@ def classify(fn, src, pm):
             if name in VALUE_EXTREMA:
                 return Consumer("ok", "extremum of the values `%s`" % name, par, "->".join(chain))
             if name in ARG_EXTREMA:
-                if extremum_is_total(par):
+                if extremum_is_total(par, c):
                     return Consumer("ok", "arg-extremum `%s` with a total comparator (ties resolved on the unique key)" % name, par, "->".join(chain))
                 return Consumer("order", "arg-extremum `%s`: ties are broken by iteration order" % name, par, "->".join(chain))
             if name in ("sum", "product"):
